@@ -88,6 +88,8 @@ func (g *Gen) validName(prefix string, n int, eph bool) string {
 // Name: a member of a name class.  use = "pub" (per-worker pool of persistent topics), "subt" (topic
 // of a SUB: unique per sequence when ephemeral, per-worker pool otherwise), "subc" (channel of a SUB:
 // unique per sequence).  ok reports whether the name is valid (then it is remembered for the sequence).
+// The class "dying" (publishes only) is not a matter of spelling but of daemon state: the replayer
+// prepares the topic and its parked deletion (dying.go) and fixes the name for the sequence beforehand.
 func (g *Gen) Name(class, use string) (name string, ok bool) {
 	key := use + ":" + class
 	if v, hit := g.seqNames[key]; hit {
@@ -195,6 +197,8 @@ func (g *Gen) Name(class, use string) (name string, ok bool) {
 			s = strings.TrimSuffix(s, " ") + "\t"
 		}
 		return s, false
+	case "dying":
+		panic("name class dying: the replayer must have prepared the topic (Worker.runSeq / Env.StartDying)")
 	default:
 		panic("unknown name class " + class)
 	}
